@@ -14,4 +14,5 @@ define(globals(), "linked_lifetimes", "core", F, "verif_linked", "linked_lifetim
        {"C04": "use-site/def-site lifetime pairs walked by the borrow visitors are positional and total", "C15": "def_to_use's expect is unreachable for in-range def lifetimes"},
        E, lambda tier: ({"N": "4", "U": "7"} if tier == "thorough" else {"N": "3", "U": "6"}),
        ["bounded: at most 3 (quick) / 4 (thorough) lifetimes per path; lifetime indices are arbitrary u8 values"],
-       {"C04": ["BorrowingParamVisitor::visit_param and BorrowingFieldVisitor (BTreeMap-based; out of reach)"], "C15": []}, features="hir")
+       {"C04": ["BorrowingParamVisitor::visit_param and BorrowingFieldVisitor (BTreeMap-based; out of reach)"], "C15": []}, features="hir",
+       quick_elsewhere={"C15": "C04"})
